@@ -201,7 +201,50 @@ def _job(args):
     return out
 
 
+def hidden_source_stream(ctx, n):
+    """Scanned projects in which the import that decides a pairwise diagram rule is written in a file below a hidden directory
+    (a/.generated/stub.py) or in a dot-file (a/.gen.py) of the importing component: all python files under module_path are
+    scanned, so that import belongs to component a like any other."""
+    import shutil
+    from pytestarch import DiagramRule, get_evaluable_architecture
+    for it in range(n):
+        rng = ctx.rng
+        a, b, c = rng.sample(["a", "ab", "b", "c", "core", "ui"], 3)
+        hidden_dir = rng.random() < 0.6
+        d = common.scratch_dir()
+        try:
+            pkg = d / "pkg"
+            for x in (a, b, c):
+                (pkg / x).mkdir(parents=True)
+                (pkg / x / "m.py").write_text("")
+            where = (pkg / a / ".generated" / "stub.py") if hidden_dir else (pkg / a / ".gen.py")
+            where.parent.mkdir(parents=True, exist_ok=True)
+            puml = d / "d.puml"
+            puml.write_text(f"@startuml\n[{a}] --> [{c}]\n[{b}]\n@enduml\n")
+            for scenario in ("forbidden import hidden", "required import hidden"):
+                if scenario == "forbidden import hidden":
+                    (pkg / a / "m.py").write_text(f"import pkg.{c}.m\n")
+                    where.write_text(f"import pkg.{b}.m\n")
+                    want = {True: "FAIL", False: "FAIL"}          # a imports b although no arrow is drawn: a violation in both modes
+                else:
+                    (pkg / a / "m.py").write_text("")
+                    where.write_text(f"from pkg.{c} import m\n")
+                    want = {True: "PASS", False: "PASS"}
+                arch = get_evaluable_architecture(str(pkg), str(pkg))
+                for only in (True, False):
+                    io = rules.run_rule(DiagramRule(should_only_rule=only).from_file(puml).with_base_module("pkg"), arch)
+                    ctx.evaluations += 1
+                    ctx.stat("deciding_import_in_a_hidden_directory_or_dot_file")
+                    if io[0] != want[only]:
+                        ctx.violation(dict(components=[a, b, c], diagram=f"[{a}] --> [{c}]; [{b}]", hidden=str(where.relative_to(d)), scenario=scenario, should_only=only, result=[io[0], io[1][:300]], documented=want[only]),
+                                      f"DiagramRule (should_only={only}) gives {io[0]}, documented {want[only]}: the deciding import is written in {where.relative_to(pkg)}", {"kind": "conformance_hidden_source"})
+            ctx.mark_nontrivial(("hidden_source", a, b, c, hidden_dir))
+        finally:
+            shutil.rmtree(d, ignore_errors=True)
+
+
 def run(ctx: Ctx):
+    hidden_source_stream(ctx, 6 if ctx.quick else 100)
     n = 1500 if ctx.quick else 40000
     per = 50
     jobs = [(ctx.rng.randrange(1 << 30), per) for _ in range(n // per)]
